@@ -31,6 +31,13 @@ VERIF_ROOT=$ALT VERIF_RACE_LOG=$ALT/race.$ID GORACE="halt_on_error=0 exitcode=0 
   timeout -s QUIT 1500 $BIN $ID $TIER > $ALT/$ID.log 2>&1
 rc=$?
 grep -E '^(VIOLATION|KNOWN-FINDING|SUMMARY|HARNESS-FAILURE)' $ALT/$ID.log | cut -c1-300 | head -5
+# as ./check does: a process killed by a fault inside the library (e.g. "concurrent map writes") is a violation
+if [ $rc -ne 0 ] && [ $rc -ne 1 ] && grep -qE '^(fatal error:|panic:)' $ALT/$ID.log; then
+  if awk '/^(fatal error:|panic:)/{f=1} f&&/^goroutine /{g++} f&&g<=1' $ALT/$ID.log | grep -q 'github.com/gebn/bmc'; then
+    echo "VIOLATION property=$ID replay=$ALT/$ID.log key=$ID:process-died :: $(grep -m1 -E '^(fatal error:|panic:)' $ALT/$ID.log | cut -c1-200)"
+    rc=1
+  fi
+fi
 if [ -x $BIN.386 ]; then
   mkdir -p $ALT/386/evidence $ALT/386/out; cp known_findings.json $ALT/386/
   VERIF_ROOT=$ALT/386 timeout -s QUIT 1500 $BIN.386 $ID $TIER > $ALT/$ID.386.log 2>&1
